@@ -78,7 +78,8 @@ def _load_oracle(c):
                       ("flat", f"sim.new {c.meta['mode']} 1 - -")):
         im = implmod.Impl()
         out = [im.run(l) for l in [new] + c.lines[1:]]
-        res[name] = rvgen.parse_snap(out[-1]) if out[-1].startswith("pc=") else None
+        lastsnap = next((o for o in reversed(out) if o.startswith("pc=")), None)          # view ops may follow the last snapshot
+        res[name] = rvgen.parse_snap(lastsnap) if lastsnap else None
     if all(res.values()):
         ta, tb = res["this"]["mem"].split("|")[1], res["other"]["mem"].split("|")[1]
         if ta != tb:
